@@ -323,6 +323,14 @@ def _check_mtvrp(v, inst, actions, cfg, exact):
         v.le(length, L, "distance_limit")
 
 
+def _mdcpdp_caps(inst, D):
+    c = inst["capacity"]
+    if not isinstance(c, (list, tuple)):
+        c = [c]
+    c = [int(x) for x in c]
+    return c if len(c) == D else [c[0]] * D
+
+
 def _mdcpdp_layout(inst):
     D = len(inst["depot"])
     n = len(inst["locs"])
@@ -333,7 +341,7 @@ def _check_mdcpdp(v, inst, actions, cfg, exact):
     """depots 0..D-1, pickups D..D+h-1, delivery of pickup p is p+h.
     Encoding: [d, customers..., d(back), d', customers..., d'(back), ...]; the final return is implicit."""
     D, n, h = _mdcpdp_layout(inst)
-    cap = int(inst["capacity"][0] if isinstance(inst["capacity"], (list, tuple)) else inst["capacity"])
+    caps = _mdcpdp_caps(inst, D)
     custs = [a for a in actions if a >= D]
     _once(v, custs, n, first=D)
     if not actions or actions[0] >= D:
@@ -353,6 +361,7 @@ def _check_mdcpdp(v, inst, actions, cfg, exact):
         i += 1
         carry = set()
         served = 0
+        cap = caps[d]
         while i < T and actions[i] >= D:
             c = actions[i]
             if c < D + h:
@@ -645,11 +654,10 @@ def _enumerate_mdcpdp(inst, cfg):
     """All ordered route plans: depots used in the library's documented order is NOT assumed; any
     sequence of distinct depots, starting with depot 0 (start_mode='order' fixes the first vehicle)."""
     D, n, h = _mdcpdp_layout(inst)
-    cap = int(inst["capacity"][0] if isinstance(inst["capacity"], (list, tuple)) else inst["capacity"])
-    customers = list(range(D, D + n))
+    caps = _mdcpdp_caps(inst, D)
     out = []
 
-    def route_orders(avail_pick):
+    def route_orders(avail_pick, cap):
         """all non-empty feasible single-route sequences using pickups from avail_pick (with their deliveries)"""
         res = []
 
@@ -673,7 +681,7 @@ def _enumerate_mdcpdp(inst, cfg):
         for d in cand:
             if d not in depots_left:
                 continue
-            for r, left in route_orders(picks_left):
+            for r, left in route_orders(picks_left, caps[d]):
                 if left and len(depots_left) == 1:
                     continue  # the last vehicle has to finish everything
                 new = seq + [d] + r
